@@ -1,0 +1,8 @@
+//go:build verif
+
+// Contracts for ontology identifiers (read as text by /verif's govc; comment-only).
+
+package ontology
+
+//@ pure func (id ID) IsZero() bool
+//@ pure func (id ID) IsType() bool
